@@ -393,17 +393,10 @@ theorem scopedSessionWith_key (C : Ctx) (S : Shape) (ses : Session) (u u' : User
         exact hhandler
       | forget | drop | unlock | ret =>
         simp only [wp_done]
-        split
-        · rw [wp_bindX]
-          apply key_frame (hrel _)
-          · intro _; exact hend _ (fun g' a b => hfin _ g' (by out20) a b)
-          · intro _; exact hunw
-        · apply hend
-          intro g' a b
-          rw [wp_bindX]
-          apply key_frame (hrel _)
-          · intro _; exact hfin _ g' (by out20) a b
-          · intro _; exact hfin _ g' (by out20) a b
+        rw [wp_bindX]
+        apply key_frame (hrel _)
+        · intro _; exact hend _ (fun g' a b => hfin _ g' (by out20) a b)
+        · intro _; exact hunw
     · exact hhandler
   unfold scopedSessionWith
   split
